@@ -147,6 +147,11 @@ def stress_oracle(d, which):
     if which == "C02":
         if final_ids != sorted(final_ids):
             bad.append("final read is not id-sorted")
+        for f in d["followers"]:
+            got = [x.split(":")[1] for x in f["items"] if x.startswith("r:")]
+            if any(b <= a for a, b in zip(got, got[1:])):
+                k = next(j for j, (a, b) in enumerate(zip(got, got[1:])) if b <= a)
+                bad.append(f"subscriber {f['name']} was sent {got[k + 1]} after {got[k]}: not in id order")
         for n, acc in enumerate(d["pollers"]):
             if any(b <= a for a, b in zip(acc, acc[1:])):
                 bad.append(f"poller {n}: frames out of order or repeated")
@@ -180,6 +185,25 @@ def stress_oracle(d, which):
                 hist = [i for i in want if i <= d["hist_last"]]
                 if any(i not in before for i in hist):
                     bad.append(f"follower {name}: pre-existing frames delivered after the threshold")
+        # followers that joined in the middle of the burst with a slow start (replay still running while frames arrive)
+        for name, scope in (("late_all", None), ("late_ctx1", ctxs[1])):
+            if name not in fol:
+                continue
+            got = [i for i, c in reals(name)]
+            if any(b <= a for a, b in zip(got, got[1:])):
+                k = next(j for j, (a, b) in enumerate(zip(got, got[1:])) if b <= a)
+                bad.append(f"follower {name} (joined mid-burst, slow start): delivery #{k + 2} is {got[k + 1]} after {got[k]} - out of order / duplicate"
+                           f" ({'ephemeral' if got[k + 1] in eph else 'stored'} after {'ephemeral' if got[k] in eph else 'stored'})")
+            if not fol[name]["closed"]:
+                want = [i for i in final_ids if scope is None or ctx_of[i] == scope]
+                miss = [i for i in want if i not in set(got)]
+                if miss:
+                    bad.append(f"follower {name} (joined mid-burst): {len(miss)} stored in-scope frames never delivered although the stream stayed open, e.g. {miss[:3]}")
+            wrong = [i for i, c in reals(name) if scope is not None and c != scope]
+            if wrong:
+                bad.append(f"follower {name}: frames of another context delivered: {wrong[:3]}")
+            if fol[name]["items"].count("t") != 1:
+                bad.append(f"follower {name}: {fol[name]['items'].count('t')} threshold markers")
         got = [i for i, c in reals("lastid")]
         want = [i for i in final_ids if ctx_of[i] == ctxs[2] and i > d["hist_last"]]
         if [i for i in want if i not in set(got)] or any(i <= d["hist_last"] for i in got):
